@@ -83,7 +83,7 @@ func buildFlowApp(c flowCase, log *[]string, raised map[string]interface{}) *cli
 				raised[name] = v
 				panic(v)
 			case "exits":
-				cli.Exit(10 + idx)
+				cli.Exit(exitCodeOf(idx))
 			}
 		}
 	}
@@ -164,12 +164,27 @@ func init() {
 	}
 }
 
+// the hook with index 1 exits with status 0, hook i with 10+i
+func exitCodeOf(idx int) int {
+	if idx == 1 {
+		return 0
+	}
+	return 10 + idx
+}
+
+func hookOfCode(code int) int {
+	if code == 0 {
+		return 1
+	}
+	return code - 10
+}
+
 func runFlow(c flowCase) (r flowResult) {
 	names := hookNames(c.Depth)
 	r.Log, r.Exits = []string{}, []string{}
 	restoreS := cli.VerifSetStreams(ioutil.Discard, ioutil.Discard)
 	restoreE := cli.VerifSetExiter(func(code int) {
-		r.Exits = append(r.Exits, names[code-10])
+		r.Exits = append(r.Exits, names[hookOfCode(code)])
 		panic(exitSentinel{code})
 	})
 	defer restoreS()
@@ -183,7 +198,7 @@ func runFlow(c flowCase) (r flowResult) {
 			case nil:
 				r.Fin = "returned"
 			case exitSentinel:
-				r.Fin, r.By = "exited", names[x.code-10]
+				r.Fin, r.By = "exited", names[hookOfCode(x.code)]
 			case *hookPanic:
 				r.Fin, r.By = "panic", x.by
 				r.Same = raised[x.by] == x
